@@ -22,7 +22,7 @@ Entries == {"aperture_photometry", "do_photometry", "aperture_mask", "aperture_s
             "iterative_psf", "calc_total_error", "utils", "morphology", "aperture_mask_edge", "stats_large",
             "aperture_photometry_subpixel", "sky_apertures", "annuli", "fit_gaussian", "psf_matching", "datasets", "harmonics", "interpolators", "segment_cutouts",
             "isophote_fit"}
-Reps == {"i8", "i2", "u2", "f4", "bigendian", "fortran", "strided", "ma_nomask", "ma_allfalse", "nddata", "quantity", "mixed_units", "convertible_units"}
+Reps == {"i8", "i2", "u2", "f4", "bigendian", "fortran", "strided", "ma_nomask", "ma_allfalse", "nddata", "nddata_ma", "quantity", "mixed_units", "convertible_units"}
 NDDataEntries == {"aperture_photometry_subpixel", "aperture_photometry", "aperture_stats", "psf_photometry"}
 \* entry points whose outputs are in data units (so Quantity inputs must give Quantity outputs)
 UnitEntries == {"aperture_photometry_subpixel", "aperture_mask_edge", "sky_apertures", "annuli", "interpolators", "segment_cutouts", "aperture_photometry", "do_photometry", "aperture_stats", "background2d", "local_background", "detect_threshold",
@@ -36,6 +36,8 @@ NoUnitsOffered == {"datasets", "harmonics"}
 Expect(e, r) == CASE e \in {"background2d", "interpolators"} /\ r \in {"i8", "i2", "u2"} -> "rounded"
                   [] e \in NoUnitsOffered /\ r = "quantity" -> "skip"
                   [] r = "nddata" -> IF e \in NDDataEntries THEN "same" ELSE "skip"
+                  \* an NDData container built from a MaskedArray without a mask (its mask attribute is numpy.ma.nomask)
+                  [] r = "nddata_ma" -> IF e \in NDDataEntries THEN "same" ELSE "skip"
                   [] r = "quantity" -> IF e \in UnitEntries THEN "units" ELSE "same"
                   [] r = "mixed_units" -> IF e \in ErrorEntries THEN "raise" ELSE "skip"
                   \* data in Jy, companion arrays in mJy (the same physical values): refused, or the same physical result
